@@ -33,7 +33,10 @@ def layout_oracle(wt, scratch, rng):
     tri = B.mk_triangle(wt)
     if not B.wt_equal(B.canon_triangle(tri), wt, ordered=True):
         return None
-    b = B.impl_write(tri, scratch)
+    w = B.safe_write(tri, scratch)
+    if w[0] != "ok":
+        return (f"to_binary raised {w[1]} on a valid triangle", {"check": "encode"})
+    b = w[1]
     ref = B.ref_encode(wt)
     if ref != b:
         k = next((i for i, (x, y) in enumerate(zip(ref, b)) if x != y), min(len(ref), len(b)))
